@@ -16,5 +16,6 @@ Record Crypto := {
   c_cbc_enc : alg -> bytes -> bytes -> bytes -> result bytes;            (* spec side only *)
   c_rc4 : bytes -> Z -> bytes -> result bytes;                           (* key, keystream offset, data *)
   c_ecb_enc : bytes -> bytes -> result bytes;                            (* AES-ECB(key).encrypt(block) *)
-  c_chacha_mask : bytes -> bytes -> result bytes                         (* ChaCha20(key, sample).encrypt(5 zero bytes) *)
+  c_chacha_mask : bytes -> bytes -> result bytes;                        (* ChaCha20(key, sample).encrypt(5 zero bytes) *)
+  c_inflate : list bytes -> bytes -> result bytes                        (* zlib stream fed the earlier inputs, then this one: decompress + flush *)
 }.
